@@ -21,7 +21,7 @@ DSPR_MAX = 81.03
 
 KS = [1e-6, 1e-3, 0.5, 2.0, 1e3, 1e6]
 ANGLE_LABELS = ["dd", "-dd", "7.3", "-33", "180", "360", "725.5", "1e-3"]
-EXPRS = ["2*hs", "0.13*hs+0.02", "1.0"]
+EXPRS = ["2*hs", "0.13*hs+0.02", "1.0", "2.5e-1*HS + 1e-2"]   # plain arithmetic on hs, incl. scientific notation and upper case
 DEPTH = 7.0
 
 F64_REL = 1e-9
@@ -45,6 +45,8 @@ def expr_value(expr, hs):
         return 0.13 * hs + 0.02
     if expr == "1.0":
         return np.full_like(hs, 1.0)
+    if expr == "2.5e-1*HS + 1e-2":
+        return 0.25 * hs + 0.01
     raise ValueError(expr)
 
 
